@@ -955,6 +955,8 @@ def solve_sylvester_diagonal(
 
     """
     index_checked = set()
+    if atol is None:  # The KPM solver passes its optional "atol" option.
+        atol = 1e-12
 
     def solve_sylvester(
         Y: np.ndarray | sparse.csr_array | sympy.MatrixBase,
